@@ -603,9 +603,9 @@ class SymEnv:
     symbolic = True
     TWIN = False      # reachability twin: the first check site reached is replaced by False
 
-    fallback_timeout_ms = 120000
+    fallback_timeout_ms = 300000
 
-    def __init__(self, stats: Stats, prefix, timeout_ms=3000):
+    def __init__(self, stats: Stats, prefix, timeout_ms=5000):
         self.stats = stats
         self.solver = z3.Solver()
         self.solver.set('timeout', timeout_ms)
@@ -982,7 +982,7 @@ class ConcreteEnv:
 # exploration of one shard
 
 def explore(scenario, params, *, max_paths=None, max_violations=3, deadline=None,
-            solver_timeout_ms=3000, collect_samples=2):
+            solver_timeout_ms=5000, collect_samples=2):
     """
     Depth-first exploration of scenario(env, **params) by re-execution.
 
